@@ -269,18 +269,25 @@ def oracles(ctx, deep):
             else:
                 continue
             j = rng.randrange(n)
-            b = zoo.make_batch(n, c, h, w, seed=rng.randrange(10**6))
+            # the sample itself may be of small or large magnitude (raw scanner units)
+            b = zoo.make_batch(n, c, h, w, seed=rng.randrange(10**6), scale=rng.choice([1.0, 1.0, 1e-5, 1e3]))
             # companions of extreme magnitude
             comp = rng.choice([1.0, 1e3, 1e-3, 0.0])
             for i in range(n):
                 if i != j:
                     b["kspace"][i] *= comp
             single = {k: v[j : j + 1].clone() for k, v in b.items()}
-            cfg = {"entry": e["name"], "batch": n, "coils": c, "height": h, "width": w, "sample": j, "companion_scale": comp}
+            cfg = {"entry": e["name"], "batch": n, "coils": c, "height": h, "width": w, "sample": j, "companion_scale": comp, "sample_scale": float(b["kspace"].abs().max())}
             runs += 1
             try:
                 with torch.no_grad():
+                    before = {k: v.clone() for k, v in b.items()}
                     ob = e["call"](model, b)
+                    changed = [k for k, v in b.items() if not torch.equal(v, before[k])]
+                    if changed:
+                        add(Violation("repeat-identical", "%s: an evaluation modifies its input tensors %s in place (a second evaluation of the same batch sees other data)" % (e["name"], changed), {"config": cfg, "modified": changed}, {"entry": e["name"], "kind": "inplace"}))
+                        b = {k: v.clone() for k, v in before.items()}
+                        single = {k: v[j : j + 1].clone() for k, v in b.items()}
                     ob2 = e["call"](model, b)
                     os_ = e["call"](model, single)
             except Exception as ex:  # noqa
